@@ -22,7 +22,9 @@ RULE = ('(a) generated model classes built with type(): 1..6 fields of kind uint
         'SignatureInfo/KeyLocator/MetaInfo/Links) described by reading its field descriptors. Values: integers at every width edge, '
         'text with 2/3/4-byte UTF-8, byte strings of 0/252/253/65535/65536+ bytes, lists/maps of 0..4. Oracle: independent encoder '
         '(declared order, shortest T/L, smallest legal integer width) == encode(); encoded_length() == len; strict walk; parse() '
-        'equal (TlvModel.__eq__ and a normalised field walk); unknown non-critical element inserted at EVERY gap => equal decode; '
+        'equal (TlvModel.__eq__ and a normalised field walk); encode(wire=<0xAA-filled caller buffer>, offset=0..3) writes the same '
+        'bytes and nothing else; Name fields re-assigned in 10 representations (tuple, generator, memoryviews, URI, wire, mixed) encode '
+        'identically; unknown non-critical element inserted at EVERY gap => equal decode; '
         'unknown critical inserted / critical field repeated / two adjacent critical fields swapped => DecodeError (unless the '
         'enclosing ModelField is ignore_critical). Non-trivial = depth>=2 or repeated/map field, AND a boundary value; distinct key = '
         '(shape hash, boundary classes).')
